@@ -121,7 +121,7 @@ def run_unit(name, tier, seed):
     red = hist.reduced_alphabet(name)
     full = lib.content_model(name).names
     A = red if tier == 'quick' else full
-    r = f1.multi(name, [dict(kinds=['ADD'], K=b['K'] + (1 if len(A) <= 5 else 0), budget=b['budget'], alphabet=A)],
+    r = f1.multi(name, [dict(kinds=['ADD'], D=8, budget=b['budget'], alphabet=A)],
                  judge, judge_concrete, per_step=per_step, stop_on_fail=True)
     cands = []
     ms, perms = part_a(name, tier, r['stats'], cands, r['samples'])
